@@ -80,7 +80,8 @@ ASSUMPTIONS = [
     "every operation runs with byte-code writing enabled as in a user's interpreter (sys.dont_write_bytecode=False during the call; the runner "
     "itself sets PYTHONDONTWRITEBYTECODE=1), so anything Griffe imports leaves __pycache__ behind — in the temporary checkout or, wrongly, in the user's tree; `check` with force_inspection is only generated together with base_ref, because importing the "
     "*current* working tree writes __pycache__ there by CPython's own doing",
-    "generated package sources are free of side effects; package names are unique per history and purged from sys.modules after each operation",
+    "generated package sources are free of side effects except, in some commits, writing one generated file next to their own sources at import "
+    "time (only ever executed under force_inspection, inside the temporary checkout); package names are unique per history and purged from sys.modules after each operation",
     "check() is called in-process with the repository as working directory (the documented CLI usage: `griffe check pkg -s src -a REF`)",
 ]
 BUDGET_S = {"quick": 80.0, "thorough": 1100.0}
@@ -393,6 +394,7 @@ def _check_sources(result, plan, info, what: str) -> list[Fail]:
     repo = info["repo"]
     cache: dict[str, list[str] | None] = {}
     seen = 0
+    through_symlink = [0]
 
     def walk(obj):
         nonlocal seen
@@ -402,6 +404,10 @@ def _check_sources(result, plan, info, what: str) -> list[Fail]:
         if kind in ("module", "class", "function"):
             fp = obj.filepath
             rel = None if isinstance(fp, list) else _relpath_in_checkout(fp)
+            if rel is not None and info.get("vendored") and f"{info['name']}/vendor/" in rel:
+                # reached through the tracked symlink <pkg>/vendor -> ../_vendored: git stores the file under its real path
+                rel = rel.replace(f"{info['name']}/vendor/", "_vendored/", 1)
+                through_symlink[0] += 1
             if rel is not None and (kind == "module" or (obj.lineno is not None and obj.endlineno is not None)):
                 lines = _git_show_lines(repo, plan["ref"], rel, cache)
                 if lines is not None:
@@ -426,6 +432,7 @@ def _check_sources(result, plan, info, what: str) -> list[Fail]:
                     walk(m)
 
     walk(result)
+    info["_through_symlink"] = through_symlink[0]
     if seen == 0 and not fails:
         fails.append(Fail("objects-usable", "nothing-checkable", f"{what}: returned tree has no module/class/function with a file path inside the temporary checkout"))
     return fails
@@ -675,6 +682,10 @@ def check_case(case) -> list[Fail]:
                     classes.append("ref-with-slash")
                 if op.get("preexisting"):
                     classes.append("preexisting-griffe-branch")
+                if plan["ref_commit"] is not None and case["commits"][plan["ref_commit"]].get("gen_file"):
+                    classes.append("package-at-ref-writes-a-file-at-import" + (":inspected" if plan["force"] else ""))
+                if role == runs[-1][0] and info.pop("_through_symlink", 0):
+                    classes.append("sources-checked-through-tracked-symlink")
                 classes.append("called-from:" + ("worker-thread" if op.get("thread") else "main-thread"))
                 if op.get("root_on_syspath"):
                     in_wt = (info["src"] / info["name"] / "__init__.py").exists()
